@@ -406,5 +406,5 @@ def remap_op(op, um):
 
 def subs(tier):
     q = tier == "quick"
-    return [Sub("histories", None, machine=MachineSpec(C08Machine), examples=40 if q else 400,
+    return [Sub("histories", None, machine=MachineSpec(C08Machine), examples=40 if q else 1200,
                 steps=25 if q else 40)]
